@@ -3,7 +3,7 @@ generate program + queries, run the reference interpreter R, compile + load + ru
 import sys
 from ..terms import (tt, Budget, Unspecified, canon, resolve, term_vars, body_kinds, body_goals, body_map_terms,
                      group_clauses, show)
-from ..refint import Interp
+from ..refint import Interp, as_program
 from ..refmach import Machine
 from ..runner import Prop, OK, DISCARD, FAIL, HarnessError
 from .. import gen
@@ -85,7 +85,10 @@ def impl_answers(code, q, ref_status, ref_answers, ref_steps, setup=None, yp_out
         yp = impl.BudgetYP(10 * ref_steps + 500)
         if yp_out is not None:
             yp_out.append(yp)
-        if code:
+        if isinstance(code, list):
+            for i, c in enumerate(code):
+                yp.load_script_from_string(c, overwrite=(i == 0))
+        elif code:
             yp.load_script_from_string(code)
         if setup:
             setup(yp)
@@ -271,6 +274,7 @@ class ProgramDiff(Prop):
     full_parens_choice = False  # C06: print bodies fully parenthesised in half of the cases
     extra_clauses = ()          # fixed helper clauses appended to every program
     dyn_facts = False           # sometimes assert facts for the program's own predicates before the query
+    split_scripts = False       # sometimes load the program as two scripts (the second with overwrite=False): combined definitions
 
     def selftest(self, tier):
         self._tier = tier
@@ -291,6 +295,14 @@ class ProgramDiff(Prop):
         case = {'text': text, 'clauses': clauses, 'queries': queries}
         if dyn:
             case['dyn'] = dyn
+        if self.split_scripts and len(clauses) >= 2 and src.n(5) == 1:
+            # the clauses up to here are one script, the rest a second one loaded with overwrite=False: predicates with
+            # clauses on both sides become combined definitions (each with its own cut scope)
+            case['split'] = 1 + src.n(len(clauses) - 1)
+            key = lambda c: (c[0][1], len(c[0][2]) if c[0][0] == 'f' else 0)      # noqa: E731
+            inside = [i for i in range(1, len(clauses)) if key(clauses[i - 1]) == key(clauses[i])]
+            if inside and src.n(3):
+                case['split'] = src.pick(inside)          # between two clauses of one predicate
         return case
 
 
@@ -299,12 +311,14 @@ class ProgramDiff(Prop):
 
     def sample_view(self, case):
         v = {'text': case['text'], 'queries': [show(tt(q)) for q in case['queries']]}
+        if case.get('split'):
+            v['loaded_as_two_scripts_split_after_clause'] = case['split']
         if case.get('dyn'):
             v['asserted_before_the_query'] = [show(tt(t)) for t in case['dyn']]
         return v
 
     def case_key(self, case):
-        return case['text'] + '\x00' + repr(case['queries']) + repr(case.get('dyn') or '')
+        return case['text'] + '\x00' + repr(case['queries']) + repr(case.get('dyn') or '') + repr(case.get('split') or '')
 
     def shrink_candidates(self, case):
         return shrink_program_case(case, plain_text)
@@ -331,6 +345,20 @@ class ProgramDiff(Prop):
         if comp[0] == 'exc':
             return FAIL(comp[1], {'text': case['text'], 'error': comp[2]})
         code = comp[1]
+        split = min(case.get('split') or 0, len(clauses) - 1)
+        program = clauses
+        if split >= 1:
+            parts = [clauses[:split], clauses[split:]]
+            code = []
+            for part in parts:
+                c2 = compile_case(gen.program_text(part))
+                if c2[0] == 'exc':
+                    return FAIL(c2[1], {'text': gen.program_text(part), 'error': c2[2]})
+                code.append(c2[1])
+            program = {}
+            for part in parts:
+                for key, defs in as_program(part).items():
+                    program.setdefault(key, []).extend(defs)
         classes = set()
         nontrivial = False
         decided = 0
@@ -345,8 +373,13 @@ class ProgramDiff(Prop):
             for t in dyn:
                 vm = {}
                 yp.assert_fact(yp.atom(t[1]), [impl.to_engine(yp, x, vm) for x in (t[2] if t[0] == 'f' else ())])
-        for q in queries:
-            st, ref, it = self.ref_run(clauses, q, setup=ref_setup if dyn else None)
+        queries = list(queries)
+        n_original = len(queries)
+        qi = -1
+        while qi + 1 < len(queries):
+            qi += 1
+            q = queries[qi]
+            st, ref, it = self.ref_run(program, q, setup=ref_setup if dyn else None)
             if st == 'unspec':
                 classes.add('query-unspecified')
                 continue
@@ -358,7 +391,7 @@ class ProgramDiff(Prop):
                 continue
             every = self.crosscheck.get(getattr(self, '_tier', 'quick'), 8)
             if st == 'done' and self._n % every == 0:
-                st2, ref2, m2 = run_ref(clauses, q, engine='M', max_steps=self.ref_steps, max_depth=self.ref_depth,
+                st2, ref2, m2 = run_ref(program, q, engine='M', max_steps=self.ref_steps, max_depth=self.ref_depth,
                                         limit=self.answer_limit, setup=(lambda m: [m.facts.setdefault((t[1], len(t[2]) if t[0] == 'f' else 0), []).append(__import__('harness.refint', fromlist=['Fact']).Fact(m.rename(t, {}))) for t in dyn]) if dyn else None)
                 if st2 == 'done' and (ref2 != ref or (self.compare_db and m2.db() != it.db())):
                     raise HarnessError('the two reference engines disagree on %r ?- %s: R %r M %r'
@@ -388,6 +421,11 @@ class ProgramDiff(Prop):
                     return FAIL('final-database-differs', {'text': case['text'], 'query': show(q),
                                                            'expected_db': db_view(exp), 'observed_db': db_view(got)}, classes)
             classes.add('answers:%s' % ('0' if not ref else '1' if len(ref) == 1 else 'many'))
+            if qi < n_original and st == 'done':
+                more = self.derived_queries(q, ref)
+                if more:
+                    classes.add('derived-queries')
+                    queries.extend(more[:4])
             if st != 'done':
                 classes.add('unbounded-prefix')
             nt = self.nontrivial(clauses, q, st, ref, it, feats, classes)
@@ -395,7 +433,15 @@ class ProgramDiff(Prop):
         if decided == 0:
             return DISCARD('all queries unspecified or unbounded')
         classes |= {'feat:' + f for f in feats}
+        if split >= 1:
+            classes.add('loaded-as-two-scripts')
+            if any(len(v) > 1 for v in program.values()):
+                classes.add('combined-definitions')
         return OK(nontrivial, sorted(classes))
+
+    def derived_queries(self, q, ref):
+        """follow-up queries computed from the reference's answers to q (decided like any other query)"""
+        return []
 
     def nontrivial(self, clauses, q, st, ref, it, feats, classes):
         if st != 'done' or it.steps < 3:
